@@ -688,6 +688,12 @@ class PyExec:
         return {"<": x < y, "<=": x <= y, ">": x > y, ">=": x >= y}[o]
 
     def eq(self, st, a, b, n):
+        if self.opt.get("opaque_eq_uf"):
+            # Python's == between an abstract value and a literal constant is NOT identity of abstractions (2.0 == 2): an
+            # uninterpreted predicate per constant
+            for x, c in ((a, b), (b, a)):
+                if isinstance(x, POpaque) and isinstance(c, PInt) and z3.is_int_value(c.t):
+                    return z3.Function("py_eq_const_%d" % c.t.as_long(), IntSort, z3.BoolSort())(x.t)
         if isinstance(a, (PInt, PAny, PBool)) and isinstance(b, (PInt, PAny, PBool)):
             return self.as_int(st, a, n) == self.as_int(st, b, n)
         # a heap cell / opaque value compared with a string constant: strings are abstracted to interned ids
@@ -968,6 +974,11 @@ class PyExec:
             return self.apply_callee(st, self.callees[key], [recv] + self.args(st, n), n)
         if key and key in self.opt.get("inline", ()):
             return self.inline_call(st, key, [recv] + self.args(st, n), n)
+        if key and self.opt.get("pure_query_methods") and meth.startswith(("has_", "is_", "may_", "can_")) and not n.args and not n.keywords:
+            # parameterless predicate methods of opaque objects (node.has_constant_result(), type.is_...()): ASSUMED pure; an
+            # uninterpreted boolean function of the receiver
+            self.assumptions.add("parameterless has_*/is_*/may_*/can_* methods of opaque objects are pure queries (uninterpreted predicates)")
+            return PBool(z3.Function("query_" + meth, IntSort, z3.BoolSort())(recv.addr))
         a = self.args(st, n)
         h = st.heap
         if isinstance(recv, PAny):
